@@ -512,7 +512,10 @@ class SpyLog:
         import sys
         import traceback
 
-        self.exceptions.append((msg, traceback.format_exc()))
+        tb = traceback.format_exc()
+        if "injected by the harness" in tb:
+            return   # the relay logging a fault the harness itself injected is what it should do
+        self.exceptions.append((msg, tb))
 
     def __getattr__(self, name):
         return lambda *a, **kw: None
@@ -530,6 +533,7 @@ class Conn:
         self.closed = None
         self.in_recv = False
         self.send_turns = 0
+        self.fail_sends = 0   # the next n ws_send calls raise a transient (non-disconnect) error: the frame is lost
         self.stalled = False  # the peer stopped reading: ws_send blocks until unstall()
         self.unstalled = asyncio.Event()
         self.n_fed = 0     # messages queued by the harness
@@ -549,6 +553,9 @@ class Conn:
     async def _send(self, m):
         if self.disconnected:
             raise falcon.WebSocketDisconnected()
+        if self.fail_sends > 0:
+            self.fail_sends -= 1
+            raise OSError("transient send error (injected by the harness)")
         while self.stalled:
             self.unstalled.clear()
             await self.unstalled.wait()
